@@ -54,7 +54,8 @@ func concCase(t *testing.T, run *vh.Run, c *Case) {
 	if c.Store == storeNflog {
 		l, err := nflog.New(nflog.Options{SnapshotReader: bytes.NewReader(marshalN(c.RecsN)), Retention: time.Hour, Metrics: prometheus.NewRegistry()})
 		if err != nil {
-			t.Fatal(err)
+			run.Violate("own-snapshot-refused", "nflog: a snapshot of well-formed records (reference encoding) is refused: "+err.Error(), c)
+			return
 		}
 		snapshot = func(w *slowWriter) error { _, err := l.Snapshot(w); return err }
 		marshal = l.MarshalBinary
@@ -62,7 +63,8 @@ func concCase(t *testing.T, run *vh.Run, c *Case) {
 	} else {
 		s, err := silence.New(silence.Options{SnapshotReader: bytes.NewReader(marshalS(c.RecsS)), Retention: time.Hour, Metrics: prometheus.NewRegistry()})
 		if err != nil {
-			t.Fatal(err)
+			run.Violate("own-snapshot-refused", "silences: a snapshot of well-formed records (reference encoding) is refused: "+err.Error(), c)
+			return
 		}
 		snapshot = func(w *slowWriter) error { _, err := s.Snapshot(w); return err }
 		marshal = s.MarshalBinary
